@@ -496,7 +496,7 @@ def gen_src(rng, u, primary, creator, srctype=None, refcode=None, ncallouts=None
         words[3] = w5
     if rng.random() < 0.04:
         words = [rng.choice([0, 0xFFFFFFFF, words[0]])] * 8          # every word the same value
-    wc = wordcount if wordcount is not None else rng.choice([9, 9, 9, 1, 2, 3, 4, 5, 6, 7, 8])
+    wc = wordcount if wordcount is not None else rng.choice([9, 9, 9, 1, 2, 3, 4, 5, 6, 7, 8, 0])
     flags = rng.randrange(256) & ~0x01
     if ncallouts is None:
         ncallouts = rng.choice([0, 0, 1, 1, 2, 3, 4, 6, 10])
